@@ -7,7 +7,7 @@
    The order of ZRANGE/ZRANK is [elt_lt]: by score, members sharing a score by name
    (byte-wise lexicographic, what the repaired code does and the command reference says). *)
 Require Import Base.Bytes Base.GoInt Base.Reply Mem.Types Mem.Inv.
-Require Import Mem.Avl Mem.AvlProofs Mem.ZSets Mem.ZSetsProofs Mem.Exec.
+Require Import Mem.Avl Mem.AvlProofs Mem.ZSets Mem.ZSetsProofs Mem.Exec Mem.ZSetsCompose.
 From Coq Require Import Sorting.Sorted.
 Local Open Scope Z_scope.
 
@@ -82,6 +82,19 @@ Theorem C12_dispatch_keeps_zsets : forall d now nowms n args hint r d',
   db_zsets_ok d -> zsets_dispatch d now nowms n args hint = Some (r, d') -> db_zsets_ok d'.
 Proof. exact zsets_dispatch_ok. Qed.
 Print Assumptions C12_dispatch_keeps_zsets.
+
+(* ... and through the whole dispatcher: if every family of [families] keeps stored sorted sets
+   valid (zsets_dispatch does: C12_dispatch_keeps_zsets), every sequence of commands of every
+   family does *)
+Theorem C12_all_families_compose : forall (prog : list (Z * Z * list bytes * reply)) (d : db),
+  Forall family_keeps_zsets families -> db_zsets_ok d -> db_zsets_ok (run_cmds prog d).
+Proof. exact run_cmds_keeps_zsets. Qed.
+Print Assumptions C12_all_families_compose.
+
+(* optional corollary: the height is logarithmic, h <= 2*log2(nodes + 1) + 1 *)
+Theorem C12_height_logarithmic : forall t : tree, avl t -> 2 ^ (ht t / 2) <= nodes t + 1.
+Proof. exact avl_height_log. Qed.
+Print Assumptions C12_height_logarithmic.
 
 (* ------------------------------------------------------------------ one score per member *)
 (* each member is listed exactly once in the tree, with the score the dictionary gives it *)
